@@ -65,6 +65,20 @@ def run(tier):
         complaints_to_violations(rep, comps, None, {"traits": tag(c), "part": "temporaries"})
         for t in traces:
             os.remove(t)
+    # reextent that shrinks / grows a non-empty array (extents up to 2) while move assignment propagates: the array must keep
+    # the allocator it was given (reextent is not a move assignment)
+    for c in [cc for cc in combos if tag(cc) in ("0100", "0110", "1100")]:
+        name = "c10_reext_" + tag(c)
+        k = consts(1, 2, 2, False, ["ctor_iota_al", "reextent", "reextent_fill", "reextent_move", "clear", "write"])
+        k.update({"AllocIds": {1, 3}, "POCCA": c[0], "POCMA": c[1], "POCS": c[2], "AlwaysEq": c[3]})
+        traces = arrays.run_config(rep, "C10", name, k, exes[c], wd, 2, trace=True, check_alloc=True, sig_extra={"traits": tag(c), "part": "reextent"})
+        comps, states = vlib.validate_traces("Lifecycle", "MSpec", traces, name + "_mon")
+        events += states
+        rep.cov["states"] += states
+        rep.cov["transitions"] += states
+        complaints_to_violations(rep, comps, None, {"traits": tag(c), "part": "reextent"})
+        for t in traces:
+            os.remove(t)
     # failures while allocators propagate or differ: every injection point of the last operation (as C09 does for equal allocators)
     fault_ops = ["ctor_iota_al", "ctor_copy_al", "ctor_move_al", "assign_copy", "assign_move", "assign_view", "reextent", "reextent_fill"]
     faulted = 0
